@@ -205,6 +205,9 @@ func listLen(r *rand.Rand) int {
 	case 5:
 		return 3
 	case 6:
+		if r.Intn(2) == 0 {
+			return 9 + r.Intn(24) // the lengths around one-byte / two-byte packed length prefixes for 5- and 10-byte elements
+		}
 		return 4 + r.Intn(5)
 	default:
 		return []int{31, 32, 42, 43, 127, 128}[r.Intn(6)]
@@ -350,8 +353,19 @@ func fieldVal(r *rand.Rand, f *schema.File, fd *schema.Field, sh schema.Shape, o
 			n = 0
 		}
 		es := make([]val.Val, n)
+		// homogeneous lists: every element negative (10-byte varints for int32/int64/enum), so that packed
+		// payloads cross the length-prefix classes with few elements
+		allNeg := (sh.Cat == "scalar" || sh.Cat == "enum") && r.Intn(5) == 0
 		for i := range es {
 			e := elemVal(r, f, fd, sh, o, depth, false)
+			if allNeg {
+				switch fd.Kind {
+				case "int32", "sint32", "sfixed32", "enum":
+					e.N |= 1 << 31
+				case "int64", "sint64", "sfixed64":
+					e.N |= 1 << 63
+				}
+			}
 			if sh.Pointer && sh.Cat != "message" {
 				e = val.SomeOf(e)
 			}
